@@ -182,6 +182,69 @@ def layer_reuse_stream(ctx, stream, n):
                 return
 
 
+def redundant_spelling_stream(ctx, stream, n):
+    """spellings that say nothing new: a module listed twice in one layer, an object layer named twice, the subject layer named
+    among the exception layers of an 'except' rule (imports inside the subject layer never count anyway) - the rule is the rule
+    without the repetition"""
+    rng = ctx.rng("redundant")
+    base, varied, kinds = [], [], []
+    while len(base) < n:
+        nodes = gen.random_tree(rng, max_nodes=12, comps=gen.IDENT_ADVERSARIAL)
+        if len(nodes) < 4:
+            continue
+        c = make_case(rng, nodes, gen.random_imports(rng, nodes, 10))
+        if not c:
+            continue
+        c = dict(c, late=0, spec=None)
+        v = dict(c)
+        k = rng.randrange(3)
+        lops = [list(x) for x in c["lops"]]
+        obj_i = [i for i, (op, arg) in enumerate(lops) if op in ("named", "namedl") and i >= 4]
+        if k == 0:
+            named = [i for i, (_, kind, _) in enumerate(c["arch"]) if kind == "N"]
+            if not named:
+                continue
+            i = rng.choice(named)
+            n_, kind, ms = c["arch"][i]
+            arch = list(c["arch"])
+            arch[i] = (n_, kind, list(ms) + [rng.choice(ms)])
+            v["arch"] = arch
+        elif k == 1:
+            if not obj_i:
+                continue
+            i = obj_i[0]
+            objs = lops[i][1] if isinstance(lops[i][1], list) else [lops[i][1]]
+            lops[i] = ["namedl", objs + [rng.choice(objs)]]
+            v["lops"] = [tuple(x) for x in lops]
+        else:
+            if not obj_i or not any(op in ("accx", "accbyx") for op, _ in lops):
+                continue
+            i = obj_i[0]
+            objs = lops[i][1] if isinstance(lops[i][1], list) else [lops[i][1]]
+            subj = lops[2][1]
+            if subj in objs:
+                continue
+            objs = objs + [subj]
+            rng.shuffle(objs)
+            lops[i] = ["namedl", objs]
+            v["lops"] = [tuple(x) for x in lops]
+        base.append(c)
+        varied.append(v)
+        kinds.append(("module listed twice in a layer", "object layer named twice", "subject layer among the exception layers")[k])
+    a = pmap(impl_layer, base, ctx.jobs, chunk=300)
+    b = pmap(impl_layer, varied, ctx.jobs, chunk=300)
+    for c, v, kind, x, y in zip(base, varied, kinds, a, b):
+        stream.evaluations += 1
+        stream.count(kind + ":" + x.split(":")[0].split(" ")[0])
+        stream.nontrivial.add(digest((c["nodes"], c["imps"], v["arch"], v["lops"])))
+        xc, yc = x.rpartition(" I=")[0], y.rpartition(" I=")[0]
+        if xc.split(":")[0] != yc.split(":")[0] or (xc.startswith("FAIL") and kind == "module listed twice in a layer" and set(xc[5:].split(";")) != set(yc[5:].split(";"))):
+            ctx.violations.append({"kind": "property-violation", "what": f"{kind}: the layer rule differs from the rule without the repetition",
+                                   "plain": layer_line(c), "with_repetition": layer_line(v), "impl_plain": x, "impl_with_repetition": y})
+            if len(ctx.violations) >= 3:
+                return
+
+
 def run(ctx: Ctx):
     from ..rules_common import interpreter_modes
 
@@ -220,6 +283,10 @@ def run(ctx: Ctx):
                     cases.append(c)
             judge(ctx, s, cases)
             done += len(cases)
+        s.finish()
+    if not ctx.violations:
+        s = Stream(ctx, "redundant spellings: a module listed twice in a layer, an object layer named twice, the subject layer among the exception layers")
+        redundant_spelling_stream(ctx, s, ctx.size(3000, 40000))
         s.finish()
     if not ctx.violations:
         s = Stream(ctx, "re-used LayerRule objects (regex layers resolved per architecture): second application vs a fresh object")
